@@ -89,8 +89,12 @@ pub enum OOp {
     /// try_read (must succeed, value compared), then try_write (must succeed) and set through it
     TryGuards(usize, Val),
     Clone(usize),
-    /// `Clone::clone_from`: handle h is re-pointed to a fresh, unrelated observable (needs >= 2 owners)
+    /// `Clone::clone_from`: handle h is re-pointed to a fresh, unrelated observable (if it was the last
+    /// owner, this observable is closed by that)
     CloneFromOther(usize),
+    /// handle traffic while a write (true) / read (false) guard is alive: 0 = clone+drop, 1 = drop another
+    /// owner, 2 = downgrade+upgrade+drop
+    HandlesUnderGuard(usize, bool, u8),
     DropOwner(usize),
     Downgrade(usize),
     Upgrade(usize),
@@ -172,6 +176,8 @@ pub trait Fl {
     fn new_s_default() -> Self::S;
     fn s_clone(s: &Self::S) -> Self::S;
     fn s_clone_from(a: &mut Self::S, b: &Self::S);
+    /// run `f` while a write / read guard taken through `s` is alive
+    fn s_under_guard(s: &Self::S, write: bool, f: &mut dyn FnMut());
     /// tag (element identity) of the value currently stored
     fn s_tag(s: &Self::S) -> u32;
     fn u_tag(u: &Self::U) -> u32;
@@ -361,6 +367,17 @@ impl Fl for SyncFl {
     fn s_clone_from(a: &mut Self::S, b: &Self::S) {
         a.clone_from(b)
     }
+    fn s_under_guard(s: &Self::S, write: bool, f: &mut dyn FnMut()) {
+        if write {
+            let g = s.write();
+            f();
+            drop(g);
+        } else {
+            let g = s.read();
+            f();
+            drop(g);
+        }
+    }
     fn s_tag(s: &Self::S) -> u32 {
         s.read().tr.tag
     }
@@ -527,6 +544,17 @@ impl Fl for AsyncFl {
     }
     fn s_clone_from(a: &mut Self::S, b: &Self::S) {
         a.clone_from(b)
+    }
+    fn s_under_guard(s: &Self::S, write: bool, f: &mut dyn FnMut()) {
+        if write {
+            let g = bo(s.write());
+            f();
+            drop(g);
+        } else {
+            let g = bo(s.read());
+            f();
+            drop(g);
+        }
     }
     fn s_tag(s: &Self::S) -> u32 {
         bo(s.read()).tr.tag
@@ -924,8 +952,46 @@ fn run_inner<F: Fl>(h: &ObsHistory) -> Result<OFacts, Div> {
                     w.owners.push(c);
                     Res::Unit
                 }
+                OOp::HandlesUnderGuard(hh, write, k) => {
+                    if m.unique || w.owners.is_empty() {
+                        break 'op Res::Skipped;
+                    }
+                    let n = w.owners.len();
+                    let holder = F::s_clone(&w.owners[hh % n]);
+                    let mut fault: Option<String> = None;
+                    {
+                        let owners = &mut w.owners;
+                        let mut body = || match k % 3 {
+                            0 => {
+                                let c = F::s_clone(&owners[0]);
+                                drop(c);
+                            }
+                            1 => {
+                                if owners.len() >= 2 {
+                                    let o = owners.remove((hh + 1) % owners.len());
+                                    drop(o);
+                                }
+                            }
+                            _ => {
+                                let wk = F::s_downgrade(&owners[0]);
+                                let up = F::w_upgrade(&wk);
+                                if up.is_none() {
+                                    fault = Some("upgrade failed although owners exist".into());
+                                }
+                                drop(up);
+                                drop(wk);
+                            }
+                        };
+                        F::s_under_guard(&holder, *write, &mut body);
+                    }
+                    drop(holder);
+                    if let Some(what) = fault {
+                        bail!("C03", "step {step} {op:?}: {what}");
+                    }
+                    Res::Unit
+                }
                 OOp::CloneFromOther(hh) => {
-                    if m.unique || w.owners.len() < 2 {
+                    if m.unique || w.owners.is_empty() {
                         break 'op Res::Skipped;
                     }
                     let i = hh % w.owners.len();
@@ -942,6 +1008,11 @@ fn run_inner<F: Fl>(h: &ObsHistory) -> Result<OFacts, Div> {
                     }
                     drop(moved);
                     drop(other);
+                    if w.owners.is_empty() {
+                        // the overwritten handle was this observable's last owner
+                        m.closed = true;
+                        f.closes += 1;
+                    }
                     Res::Unit
                 }
                 OOp::DropOwner(hh) => {
